@@ -263,7 +263,7 @@ def run(chk):
 
     # ---------------- 2./3. signals ----------------
     scalings = list(SCALINGS)
-    nrand = 12 if not thorough else 300
+    nrand = 12 if not thorough else 150
     for _ in range(nrand):
         def rdec(maxd):
             k = rng.randrange(1, maxd + 1)
@@ -478,7 +478,7 @@ def run(chk):
                 chk.count("width<=12")
     chk.exhaustive = True
     # widths 13..64: both ends, around zero, powers of two, random interior
-    nint = 10 if not thorough else 300
+    nint = 10 if not thorough else 150
     for si, (fs, os_) in enumerate(scalings):
         for size in range(13, 65):
             if not thorough and (size + si) % 4 and size not in (13, 16, 24, 31, 32, 33, 48, 63, 64):
@@ -492,10 +492,22 @@ def run(chk):
                 cand |= {(1 << k) - 1 for k in ks} | {1 << k for k in ks}
                 cand |= {rng.randrange(lo, hi + 1) for _ in range(nint)}
                 raws = sorted(x for x in cand if lo <= x <= hi)
-                tie_raws = set(raws) if not thorough else set(rng.sample(raws, min(60, len(raws))))
+                tie_raws = set(raws) if not thorough else set(rng.sample(raws, min(30, len(raws))))
                 run_signal(si, fs, os_, size, signed, raws, make_table(lo, hi, size), tie_raws, caches[si])
                 nsig += 1
                 chk.count("width>12")
+    # tie only (outside the property's widths): sizes whose raw range goes through Python's float power or the 128-bit cap
+    for size in (0, -1, -5, 65, 100, 127, 128, 129, 200):
+        for signed in (False, True):
+            for fs, os_ in (("0.1", "-4"), ("1", "0"), ("-2.5E+3", "1E-3")):
+                try:
+                    sig = C.Signal("s", size=size, is_signed=signed, factor=fs, offset=os_)
+                    rr = sig.calculate_raw_range()
+                    exp = [tup(sig.factor), tup(sig.offset), [int(rr[0]), int(rr[1])], tup(sig.min), tup(sig.max), []]
+                except Exception as e:
+                    exp = [[-1]]
+                chk.count("odd-size(tie only)")
+                add(402, [[size, int(signed)] + tup(D(fs)) + tup(D(os_)), []], exp, dict(construct=dict(size=size, is_signed=signed, factor=fs, offset=os_)))
     chk.count("signals", nsig)
     chk.sample(dict(factor="0.3", offset="0", size=12, is_signed=True, raw=-2047, phys=str(D("0.3") * -2047), back=-2047))
     chk.sample(dict(factor="2.5E+3", offset="-1E-3", size=64, is_signed=False, raw=2 ** 64 - 1,
